@@ -450,8 +450,8 @@ def run(ctx):
     # ---- T2: model-chosen schedules on the instrumented handler, step by step against the fine-grained model
     tie3 = cov["ties"].setdefault("T2-sched", {})
     sb = build_sched(ctx)
-    n_sched = n_sched_ok = n_sched_mis = n_sched_fail = n_items = 0
-    first_sched_mis = None
+    n_sched = n_sched_ok = n_sched_mis = n_sched_fail = n_items = n_drift = 0
+    first_sched_mis = drift_example = None
     if not sb["ok"]:
         ctx.note("T2-sched unavailable on this tree: %s%s" % (sb["why"], (" " + json.dumps(sb["missing"][:3])) if sb.get("missing") else ""))
         tie3.update({"status": "unavailable: " + sb["why"], "yield_points_placed": len(sb.get("placed", [])), "yield_points_missing": sb.get("missing", [])[:10]})
@@ -478,6 +478,9 @@ def run(ctx):
                                       name="sched_%s.json" % sid_)
                 elif v[0] == "ok":
                     n_sched_ok += 1
+                elif v[0] == "drift":
+                    n_drift += 1
+                    drift_example = drift_example or (sid_, " ".join(v))
                 else:
                     n_sched_mis += 1
                     if first_sched_mis is None:
@@ -489,9 +492,13 @@ def run(ctx):
                     first_sched_mis = (c["id"], [c["kind"], "at-item", str(c.get("at"))], c.get("schedule"), c["output"])
         tie3.update({"status": "ran", "yield_points_placed": len(sb["placed"]), "schedules_executed_on_instrumented_handler": n_sched, "items": n_items,
                      "schedules_agreeing_step_by_step_and_in_the_final_state": n_sched_ok, "schedules_disagreeing": n_sched_mis,
+                     "schedules_abandoned_because_a_thread_passed_a_program_point_without_yielding": n_drift,
                      "schedules_failing_the_oracle": n_sched_fail, "distinct_schedules": len(shapes), "corpus": len(load_kind_corpus("sched")),
                      "compared": "after every item: the stepped thread's yield point vs the model's pc; at the end: HTTP statuses, ConnEnd count and table entry per cookie"})
         cov["distinct_sched"] = len(shapes)
+        if n_drift:
+            ctx.note("T2-sched: in %d schedules a real thread passed a model program point without yielding (e.g. %s %s): the code's shape differs from the anchors; those schedules are not compared further"
+                     % (n_drift, drift_example[0], drift_example[1][:120]))
 
     any_real_failure = bool(n_fail or crashes or n_race_fail or n_sched_fail)
     if first_sched_mis and not any_real_failure:
